@@ -191,10 +191,11 @@ def case_size(v):
     return (len(jcanon(v.get("case"))), jcanon(v.get("case")))
 
 
-def write_replay(pid, v):
+def write_replay(pid, v, unit=None):
     d = os.path.join(REPLAY_DIR, pid)
     os.makedirs(d, exist_ok=True)
-    body = {"property": pid, "oracle": v["oracle"], "site": v.get("site"), "case": v["case"], "detail": v.get("detail")}
+    body = {"property": pid, "oracle": v["oracle"], "site": v.get("site"), "case": v["case"], "detail": v.get("detail"),
+            "unit": unit}
     h = hashlib.sha1(jcanon({"o": v["oracle"], "c": v["case"]}).encode()).hexdigest()[:16]
     path = os.path.join(d, h + ".json")
     with open(path, "w") as f:
@@ -213,8 +214,25 @@ def do_replay(mod, path):
         print("  oracle:", body["oracle"])
         print("  detail:", str(hit[0].get("detail"))[:2000])
         return 1
+    # history-dependent violations (state leaking between calls) only reproduce inside the call sequence of their work
+    # unit: re-run the whole unit in this fresh interpreter and look for the same (oracle, case)
+    unit = body.get("unit")
+    if unit is not None:
+        res = mod.run_unit(_tuplify(unit))
+        for v in res.get("violations", []):
+            if v["oracle"] == body["oracle"] and jcanon(v["case"]) == jcanon(body["case"]):
+                print(f"VIOLATION property={mod.ID} replay={path}")
+                print("  oracle:", body["oracle"], "(reproduces only within the call sequence of its work unit: state leaks between calls)")
+                print("  detail:", str(v.get("detail"))[:2000])
+                return 1
     print(f"replay {path}: oracle {body['oracle']} did not fire ({len(vs)} other findings)")
     return 0
+
+
+def _tuplify(x):
+    if isinstance(x, list):
+        return tuple(_tuplify(y) for y in x)
+    return x
 
 
 def emit_test(mod, path):
@@ -307,7 +325,9 @@ def run_check(mod, tier, seed, jobs, logpath):
             if len(agg["samples"]) < 6:
                 agg["samples"] += list(r.get("samples", []))[:2]
             agg["hangs"] += r.get("hangs", [])
-            agg["violations"] += r.get("violations", [])
+            for v in r.get("violations", []):
+                v["_unit"] = i
+                agg["violations"].append(v)
             for ck, cv in r.get("counters", {}).items():
                 if ck.startswith("max_"):
                     agg["counters"][ck] = max(agg["counters"].get(ck, 0), cv)
@@ -356,7 +376,7 @@ def run_check(mod, tier, seed, jobs, logpath):
     confirmed = []
     diverged = []
     for g, v in sorted(groups.items(), key=lambda kv: case_size(kv[1]))[:8]:
-        path = write_replay(pid, v)
+        path = write_replay(pid, v, units[v["_unit"]] if "_unit" in v else None)
         env = dict(os.environ, PYTHONHASHSEED="0")
         p = subprocess.run([PY, "-m", "bbmc.runner", pid, "--replay", path], cwd=ROOT, env=env,
                            capture_output=True, text=True, timeout=900)
